@@ -166,6 +166,20 @@ Theorem C09_timeout_run_refuted :
 Proof. exact timeout_as_found_refuted. Qed.
 Print Assumptions C09_timeout_run_refuted.
 
+(* queued work never sleeps: with remaining_todo > 0 (work queued and not yet dispatched) or timers that just
+   expired the timeout is 0 whatever the heap holds; the repaired qb_loop_run starts a run from the levels' todo
+   counters, so work left by a stopped run counts *)
+Theorem C09_queued_work_never_sleeps : forall fx st rem tt jt,
+  rem > 0 \/ tt > 0 -> choose_timeout fx st rem tt jt = (0, st).
+Proof. exact queued_work_never_sleeps. Qed.
+Print Assumptions C09_queued_work_never_sleeps.
+
+Theorem C09_run_counts_leftover : forall beh st d ds,
+  loop_run fixed beh st (d :: ds) =
+  run_turns fixed beh (d :: ds) (set_stop st false) LT_LOOP_LOW (total_todo (set_stop st false)).
+Proof. exact run_counts_leftover. Qed.
+Print Assumptions C09_run_counts_leftover.
+
 (* the code as found: qb_loop_run after a stopped run waits for ever with an expired timer still queued *)
 Theorem C09_rerun_blocks_refuted :
   let st := run as_found [] init0 w_rerun in
